@@ -62,6 +62,14 @@ Theorem C02_waiters_are_woken_in_subscription_order :
 Proof. exact WaiterList.scheduled_in_subscription_order. Qed.
 Print Assumptions C02_waiters_are_woken_in_subscription_order.
 
+(** ... and nobody is woken twice: with a token of its own per subscription (they are fresh Interrupt objects) no pair
+    occurs twice among the scheduled and the waiting ones, for every history *)
+Theorem C02_nobody_woken_twice :
+  forall ops, NoDup (WaiterList.all_subs ops) ->
+    NoDup (WaiterList.scheduled (WaiterList.run ops) ++ WaiterList.waiting (WaiterList.run ops)).
+Proof. exact WaiterList.nobody_woken_twice. Qed.
+Print Assumptions C02_nobody_woken_twice.
+
 Theorem C02_awake_all_wakes_everybody_oldest_first :
   forall ops, WaiterList.waiting (WaiterList.run (ops ++ [WaiterList.AwakeAll])) = [] /\
     WaiterList.scheduled (WaiterList.run (ops ++ [WaiterList.AwakeAll])) =
